@@ -72,7 +72,7 @@ def setup(ctx):
     tag = '%d_%d' % (os.getpid(), ctx.shard if ctx.shard >= 0 else 99)
     # API module (with extern "Python")
     fa = cffi.FFI()
-    fa.cdef(CDEF + 'extern "Python" int c22_extpy(int); extern int c22_mv; extern int c22_seen; extern int c22_next;')
+    fa.cdef(CDEF + 'extern "Python" int c22_extpy(int); extern "Python" int c22_noext(int); extern int c22_mv; extern int c22_seen; extern int c22_next;')
     name = '_c22_api_%s' % tag
     fa.set_source(name, CSRC)
     mod = cc.build_api_module(fa, name, tmp)
@@ -131,7 +131,7 @@ def strategy(ctx):
             # macro global: [errno the accessor leaves, how: 0 read / 1 write / 2 addressof]
             return [t, 'gfetch', draw(val), draw(st.integers(0, 2))]
         # callback: [path, cbkind, pre, assign-or-None]
-        return [t, 'cb', draw(st.integers(0, 3)), draw(st.integers(0, 2)), draw(val),
+        return [t, 'cb', draw(st.integers(0, 3)), draw(st.integers(0, 3)), draw(val),
                 draw(st.one_of(st.none(), val))]
 
     @st.composite
@@ -198,14 +198,18 @@ class Worker(threading.Thread):
             _, _, path, cbkind, pre, assign = op
             seen = []
             api = s['api']
-            ffi_for_cb = [s['fi'], api.ffi, api.ffi][cbkind]
+            ffi_for_cb = [s['fi'], api.ffi, api.ffi, api.ffi][cbkind]
 
             def body(x):
                 seen.append(ffi_for_cb.errno)
                 if assign is not None:
                     ffi_for_cb.errno = assign
                 return x + 1
-            if cbkind == 2:
+            if cbkind == 3:
+                # an extern "Python" function to which no Python code was ever attached: cffi prints a
+                # notice and returns 0; the errno the C caller set must survive the call
+                addr = int(api.ffi.cast('uintptr_t', api.lib.c22_noext))
+            elif cbkind == 2:
                 api.ffi.def_extern(name='c22_extpy')(body)
                 cb = api.lib.c22_extpy
                 fn = s['funcs']['run_cb'][path]
@@ -285,7 +289,11 @@ def prop(case, ctx):
             elif k == 'cb':
                 _, _, path, cbkind, pre, assign = op
                 r, seen = res
-                if seen != [pre]:
+                if cbkind == 3:
+                    if seen != []:
+                        ctx.fail('unattached extern "Python" function ran Python code', step=idx, op=op)
+                    assign = None
+                elif seen != [pre]:
                     ctx.fail('thread %d: callback saw ffi.errno %r, C had set errno=%r' % (t, seen, pre),
                              step=idx, op=op)
                 expect = pre if assign is None else assign
